@@ -186,8 +186,11 @@ def finish(pid, tier, level, results, t0, bounds, stubs, assumptions, rule, expl
             non_repro.append((r.name, path, out))
     missing = []
     for oc in (required_outcomes or []):
-        if not outcomes.get(oc):
-            missing.append(oc)
+        alts = oc if isinstance(oc, (tuple, list)) else (oc,)
+        if not any(outcomes.get(a) for a in alts):
+            missing.append(' or '.join(alts))
+    for note in sorted(k for k in outcomes if 'not applicable' in k):
+        print(f'NOTE: {note}: part of the harness could not be applied to this tree; the remaining cases decide')
     samples = []
     for r in results:
         for s in r.samples[:2]:
